@@ -7,6 +7,7 @@ CONSTANTS
   Anisos <- AnisoAll
   Sills = {2, 5}
   Layouts = {"spread", "cluster", "nodes", "outside"}
+  Verrs = {"const", "distinct", "extreme"}
   Keep <- KeepQuick
   HeavyEvery = 6
   PolyCoefs <- Coefs
